@@ -24,7 +24,7 @@ func init() {
 	for _, p := range []string{"C01", "C07", "C14"} {
 		engines[p] = diskEngine{prop: p}
 	}
-	faults := "fault kinds: enoent, eisdir, enotdir, eloop, dangling, torn(offset), flip(offset,mask), setbyte, lost-zero/lost-stale(sector), dup(sector), misdirect(sector,other file), " +
+	faults := "fault kinds: enoent, eisdir, enotdir, eloop, dangling, torn(offset), flip(offset,mask), setbyte, filler-tail(offset,filler), lost-zero/lost-stale(sector), dup(sector), misdirect(sector,other file), " +
 		"replace (stale file / swap after stat / change between two INCLUDEs of one file / cycle created mid-build), eacces, eio (the last two are stubbed syscall results); " +
 		"triggers: before the build, or before the n-th stat/read of a path; 0-3 faults per run, a random subset of kinds enabled per run, ~20% of runs fault-free; sector size drawn per run from {1,4,16,64,512}. "
 	evidenceInfo["C01"] = evInfo{
@@ -76,7 +76,7 @@ func (e diskEngine) Plan(tier string) []Phase {
 	return []Phase{{Mode: "random", Share: 1}}
 }
 
-var byteFaultKinds = []string{"flip", "setbyte", "lost-zero", "lost-stale", "dup", "misdirect"}
+var byteFaultKinds = []string{"flip", "setbyte", "lost-zero", "lost-stale", "dup", "misdirect", "filler-tail"}
 var structFaultKinds = []string{"enoent", "eisdir", "enotdir", "eloop", "dangling", "torn", "replace", "eacces", "eio"}
 
 func isByteGarbage(k string) bool {
@@ -155,6 +155,9 @@ func genFaults(r *Rand, p *Project, light bool) []Fault {
 		case "flip":
 			ft.Off = r.Intn(ln + 1)
 			ft.Mask = byte(1 << r.Intn(8))
+		case "filler-tail":
+			ft.Off = r.Intn(ln + 1)
+			ft.Mask = []byte{0x00, 0xff, 0xaa, 0x55, 0x80, 0xbf, ' ', '\n'}[r.Intn(8)]
 		case "setbyte":
 			ft.Off = r.Intn(ln + 1)
 			ft.Mask = []byte{0, 0xff, '"', '(', ')', '\r', '\n', '{', '/', '#', '\\', 0x80}[r.Intn(12)]
@@ -376,7 +379,7 @@ func (e diskEngine) Exec(c *Case, job *Job) *Result {
 	}
 	modelAsserted := (strings.HasPrefix(c.Project.Kind, "light") || c.Project.Kind == "generated-valid" || strings.HasPrefix(c.Project.Kind, "special")) && !garbage
 	for _, f := range c.Faults {
-		if f.Kind == "flip" || f.Kind == "setbyte" || f.Kind == "lost-zero" {
+		if f.Kind == "flip" || f.Kind == "setbyte" || f.Kind == "lost-zero" || f.Kind == "filler-tail" {
 			if !strings.HasPrefix(c.Project.Kind, "light") {
 				modelAsserted = false // a damaged multi-line body may hide or reveal an INCLUDE-looking line
 			}
